@@ -225,7 +225,7 @@ func (e *envB) observe(i int, what string, tagWritten bool) {
 	{
 		gone := []string{}
 		for d := range cs.seen {
-			if !files[d] {
+			if !files[d] && !present(e.tgt, d) {
 				gone = append(gone, d)
 			}
 		}
@@ -257,7 +257,7 @@ func (e *envB) observe(i int, what string, tagWritten bool) {
 		}
 		gone := []string{}
 		for d := range files {
-			if !after[d] {
+			if !after[d] && !present(e.tgt, d) {
 				gone = append(gone, d)
 			}
 		}
@@ -511,7 +511,7 @@ func checkB(cs Case, ev *evid.Collector) *evid.Violation {
 			return v
 		}
 	}
-	has := func(d string) bool { _, ok := end.files[digestKey(d)]; return ok }
+	has := func(d string) bool { _, ok := end.recheck(e.tgt, digestKey(d)); return ok }
 	// what a successful copy had put below its tag - right after it wrote the tag, and when it returned - is still there
 	// (tags are distinct and nothing deletes: below a tag content only stays or grows)
 	for i, s := range e.copies {
@@ -541,7 +541,8 @@ func checkB(cs Case, ev *evid.Collector) *evid.Violation {
 	// reachable before the final close -> still there
 	for _, d := range rb.sorted() {
 		k := digestKey(d)
-		if h, ok := end.files[k]; !ok || h != beforeFinal.files[k] {
+		bh, listed := beforeFinal.files[k]
+		if h, ok := end.recheck(e.tgt, k); !ok || (listed && h != bh) {
 			ed := rb.edgeOf(d)
 			if v := report(evid.V("gc-removed-reachable-"+ed.sig(), "final Close after the concurrent run removed/altered %s which index.json reaches: %s", d, ed.detail)); v != nil {
 				return v
